@@ -58,6 +58,9 @@ type c07Cell struct {
 	logged bool
 	// opts, if set, is the options value handed to Connect (shared between several Connects)
 	opts *ClientSessionOptions
+	// identity: "" = the client names itself fully; "no-version", "no-name", "anonymous" = its
+	// Implementation has an empty Version and/or Name (NewClient accepts that, and the wire form is valid)
+	identity string
 }
 
 func (c c07Cell) String() string {
@@ -67,6 +70,9 @@ func (c c07Cell) String() string {
 	}
 	if c.logged {
 		x += " server-transport-wrapped-in-LoggingTransport"
+	}
+	if c.identity != "" {
+		x += " client-identity=" + c.identity
 	}
 	return fmt.Sprintf("transport=%s json=%v store=%v advertised=%s requested=%q%s", c.transport, c.jsonResp, c.store, c.advertised, c.requested, x)
 }
@@ -165,7 +171,16 @@ func c07RunOn(s *Server, c c07Cell) (obs, sig, msg string) {
 			f()
 		}
 	}()
-	client := NewClient(&Implementation{Name: "cli", Version: "1"}, &ClientOptions{Logger: quietLogger})
+	impl := &Implementation{Name: "cli", Version: "1"}
+	switch c.identity {
+	case "no-version":
+		impl.Version = ""
+	case "no-name":
+		impl.Name = ""
+	case "anonymous":
+		impl.Name, impl.Version = "", ""
+	}
+	client := NewClient(impl, &ClientOptions{Logger: quietLogger})
 	cctx, cancel := context.WithTimeout(ctx, time.Minute)
 	defer cancel()
 	copts := c.opts // one options value may serve several Connects (it is configuration, not state)
@@ -399,6 +414,16 @@ func TestVerifC07(t *testing.T) {
 						cells = append(cells, c07Cell{transport: tr, jsonResp: j, store: st, advertised: "all", requested: r, noSessionIDs: true})
 					}
 				}
+			}
+		}
+	}
+	// clients whose Implementation is incomplete: what they request and share with the server they still get
+	for _, r := range []string{"", "2026-07-28", "2025-06-18"} {
+		for _, id := range []string{"no-version", "no-name", "anonymous"} {
+			for _, base := range []c07Cell{{transport: "inmem", advertised: "all"}, {transport: "io", advertised: "mixed"}, {transport: "sse", advertised: "all"},
+				{transport: "stateful", advertised: "all"}, {transport: "stateless", advertised: "all"}, {transport: "stateless", advertised: "all", jsonResp: true}} {
+				base.requested, base.identity = r, id
+				cells = append(cells, base)
 			}
 		}
 	}
